@@ -126,6 +126,12 @@ Definition chain_done (fail : bool) (p : program) : bool :=
                            && match res D with Some VNone => true | _ => false end) rest
   end.
 
+(** the state just before the innermost Deferred of an outer-first chain of length n fires (already marked fired) *)
+Definition before_last (n : nat) : heap :=
+  let p := chain_outer false n in
+  let s := fst (run true (init (fst p)) (removelast (snd p))) in
+  upd (heap_of s) n (fun D => set_res (Some (VInt 1)) (set_called true D)).
+
 (** ---- recursive interpreter with its nesting depth (Spec of C01, executable, fuelled) ---- *)
 Fixpoint srun (fuel : nat) (h : heap) (d : nat) (depth : nat) : option (heap * nat) :=
   match fuel with
